@@ -257,6 +257,31 @@ def mklogic(log, side, gv):
     return lg
 
 
+class _CutPositions(__import__("logging").Handler):
+    """where in the record log the library logged a maxIterations cut ("Exceeded ..."): `o["cut_at"]` of the C04 runs
+    (the causal-tree rule of `c04_monitor` uses it: nothing is dropped from the queue before the first cut)"""
+
+    def __init__(self):
+        super().__init__(level=40)
+        self.log = None
+        self.at = []
+
+    def emit(self, record):
+        try:
+            if self.log is not None and "Exceeded" in record.getMessage():
+                self.at.append(len(self.log))
+        except Exception:
+            pass
+
+    def begin(self, log):
+        self.log = log
+        self.at = []
+
+
+_CUTPOS = _CutPositions()
+impl._LIBLOG.addHandler(_CUTPOS)
+
+
 def _fingerprint(it, flavor):
     ids = sorted(n.id for n in it._active_state_nodes)
     hist = {k: [n.id for n in v] for k, v in it._history.items()}
@@ -305,6 +330,7 @@ def run_life_sync(case):
         for call in case["calls"]:
             log.clear()
             impl._COUNTER.reset()
+            _CUTPOS.begin(log)
             before = _fingerprint(it, "sync")
             s0 = it.status
             exc = ""
@@ -337,7 +363,7 @@ def run_life_sync(case):
             s_ret = it.status
             sched.run_ready()
             o = _observe(it, "sync", log, exc, impl._COUNTER.n)
-            o.update(call=call, S0=s0, same=(before == _fingerprint(it, "sync")), quiet=quiet, Sr=s_ret, cuts=impl._COUNTER.cuts)
+            o.update(call=call, S0=s0, same=(before == _fingerprint(it, "sync")), quiet=quiet, Sr=s_ret, cuts=impl._COUNTER.cuts, cut_at=list(_CUTPOS.at))
             if it.status == "stopped":
                 # census: nothing of this interpreter may be alive, nothing may be delivered later
                 o["threads"] = sorted(t.name.split("::")[0] for t in sched.alive())
@@ -961,6 +987,56 @@ def gen_c04_case(seed, flavor, idx, produce=False):
             "drain_step_ms": 1 if produce else 0, "features": base["features"]}
 
 
+def _chain_machine(limit, chains, slow=None):
+    """one state; `chains[X] = (names, fanout, loops)`: the external event X raises `fanout` events `names[0]`, each of
+    which raises `names[1]`, ... (every raise marked `rz:`; the names follow the `r<A..D>` convention of `c04_machine`);
+    `loops`: the last one raises itself (a runaway chain); `slow`: the external event GO runs a sleeping coroutine action"""
+    on = {}
+    for X, (names, fan, loops) in chains.items():
+        seq = [X] + list(names)
+        for d, ev in enumerate(seq):
+            acts = [f"tr:a:{ev}:0"]
+            nxt = seq[d + 1] if d + 1 < len(seq) else (ev if loops else None)
+            for _ in range(fan if d == 0 else 1):
+                if nxt is not None:
+                    acts += ["rz:" + nxt, {"type": "raise", "params": {"event": {"type": nxt}}}]
+            on[ev] = {"actions": acts}
+    if slow:
+        on["GO"] = {"actions": ["tr:a:GO:0", f"slow:{slow}:go"]}
+    return {"id": "m", "initial": "a", "maxIterations": limit, "states": {"a": {"on": on}}}
+
+
+def c04_burst_cases(flavor):
+    """DIRECTED: bursts of N external events each starting an independent chain of 1..3 raised events, N below / at /
+    above maxIterations = L; the same with two event names, with one event of the burst fanning out or looping beyond
+    the bound (a cut is legitimate there), and (async) sent by producer tasks while a sleeping action keeps the loop busy"""
+    cases = []
+
+    def add(tag, m, calls, step=0):
+        cases.append({"id": f"c04-burst-{flavor}-{tag}", "machine": m, "guards": {}, "events": [], "calls": [["start"]] + calls,
+                      "drain_step_ms": step, "features": ["burst-of-chains"]})
+    for L in (1, 2, 3, 4, 6):
+        for length in (1, 2, 3):
+            for N in sorted({max(1, L - 1), L, L + 1, L + 2, 2 * L + 1, 2 * L + 3}):
+                add(f"L{L}-c{length}-N{N}", _chain_machine(L, {"A": (["rA", "rB", "rC"][:length], 1, False)}), [["send_events", ["A"] * N]])
+        for N in (L + 1, 2 * L + 2):
+            # two kinds of chain, lengths 1 and 2, interleaved; then one more call: the interpreter still answers
+            add(f"L{L}-mix-N{N}", _chain_machine(L, {"A": (["rA"], 1, False), "B": (["rB", "rD"], 1, False)}),
+                [["send_events", [("A", "B")[i % 2] for i in range(N)]], ["send", "A"]])
+            # N sends in separate calls (each drained): never a burst
+            add(f"L{L}-sends-N{N}", _chain_machine(L, {"A": (["rA"], 1, False)}), [["send", "A"] for _ in range(N)])
+            # one event of the burst fans out / loops beyond the bound: cutting ITS tree is legitimate
+            add(f"L{L}-fan-N{N}", _chain_machine(L, {"A": (["rA"], 1, False), "C": (["rC"], L + 1, False)}),
+                [["send_events", ["A"] * (N - 1) + ["C"]]])
+            add(f"L{L}-loop-N{N}", _chain_machine(L, {"A": (["rA"], 1, False), "D": (["rD"], 1, True)}),
+                [["send_events", ["D"] + ["A"] * (N - 1)]])
+            if flavor == "async":
+                half = (N + 1) // 2
+                add(f"L{L}-prod-N{N}", _chain_machine(L, {"A": (["rA"], 1, False), "B": (["rB"], 1, False)}, slow=20),
+                    [["produce", [[[0, "GO"]] + [[1 + i, "A"] for i in range(half)], [[2 + i, "B"] for i in range(N - half)]]]], step=1)
+    return cases
+
+
 # ---------------------------------------------------------------------------------------------- runners
 def run_c04_sync(case):
     return run_life_sync(case)
@@ -974,6 +1050,7 @@ async def _run_c04_async(case):
         log.clear()
         del side[:]
         impl._COUNTER.reset()
+        _CUTPOS.begin(log)
         s0 = it.status
         exc = ""
         try:
@@ -1004,7 +1081,7 @@ async def _run_c04_async(case):
             exc = _exc_name(x)
         await _drain_life(it, step)
         o = _observe(it, "async", log, exc, impl._COUNTER.n)
-        o.update(call=call, S0=s0, cuts=impl._COUNTER.cuts, side=[list(x) for x in side])
+        o.update(call=call, S0=s0, cuts=impl._COUNTER.cuts, cut_at=list(_CUTPOS.at), side=[list(x) for x in side])
         out.append(o)
     try:
         await it.stop()
@@ -1022,10 +1099,137 @@ def _tag(r):
     return r.rsplit("@", 1)[1] if "@" in r and not r.startswith("#") else None
 
 
+def _c04_all_self_sends_marked(machine):
+    """static applicability of the causal-tree rule: every event the machine can send ITSELF is visible in the
+    record log — each `raise` action is immediately preceded by its `rz:<name>` marker (what `c04_machine` produces)
+    and nothing else enqueues behind the monitor's back (no final state: `done.state.*`; no `invoke`, no `after`)"""
+    ok = [True]
+
+    def chk(lst):
+        items = lst if isinstance(lst, list) else ([] if lst is None else [lst])
+        for k, a in enumerate(items):
+            if _is_raise(a):
+                name = _raised_name(a)
+                if not isinstance(name, str) or k == 0 or items[k - 1] != "rz:" + name:
+                    ok[0] = False
+            elif isinstance(a, dict) and a.get("type") in ("sendTo", "send_to", "xstate.sendTo", "send", "xstate.send", "sendParent", "respond"):
+                ok[0] = False
+
+    def walk(n):
+        if not isinstance(n, dict):
+            return
+        if n.get("type") == "final" or n.get("invoke") or n.get("after"):
+            ok[0] = False
+        for k in ("entry", "exit"):
+            chk(n.get(k))
+        buckets = list((n.get("on") or {}).values()) + [n[k] for k in ("always", "onDone") if k in n]
+        for v in buckets:
+            for t in (v if isinstance(v, list) else [v]):
+                if isinstance(t, dict):
+                    chk(t.get("actions"))
+        for c in (n.get("states") or {}).values():
+            walk(c)
+    walk(machine)
+    return ok[0]
+
+
+def c04_causal_trees(o, q0, limit, ext):
+    """The CAUSAL TREE of an external event: the events raised while it is processed, and, transitively, while those
+    are processed. One call's record log `o["T"]` is replayed against a FIFO queue of (event, root) entries:
+
+    * the queue starts with the accepted external events not yet received (`q0`), each the ROOT of its own tree; the
+      sends of producer tasks (`side` entries `("sent", e, position, status)`) are appended at their log position;
+      `start()` is the root of what the initial entry raises (a pseudo-root, as are records before the first `#recv:`);
+    * `rz:r<X>` inside a segment: one more raised event in the segment's tree, appended to the queue;
+    * `#recv:e` opens the segment of `e`. External events are received in FIFO order and never dropped (their own
+      rules report it otherwise): the first queued `e` it is. A RAISED entry can only have been dropped by a bound
+      cut logged after it was enqueued (`o["cut_at"]`: the log positions of the cuts; without them every entry is
+      treated as possibly dropped): the received entry is one of the queued entries named `e` up to and including the
+      first one enqueued since the last cut (which is certainly still queued, as is everything behind it). With a
+      single candidate the attribution is exact - always so before the first cut. With several, which of them was
+      received is not observable: the first is consumed (so the real queue stays a sub-sequence of the replayed
+      one), and as soon as the segment raises something the candidates' trees are MERGED (union-find) - the size of
+      a merged class is an upper bound of the size of every tree in it under every attribution consistent with
+      FIFO order.
+
+    Returns None when a received event cannot be attributed at all (never seen being enqueued, or overtaking an entry
+    that must still be queued), else `{"trees": [[root event(s), upper bound of the tree size], ...], "largest",
+    "raised", "lost": {name: n}}` with `lost` the raised events never received (counted by name: raised names
+    `r<X>` are never sent from outside)."""
+    T = o["T"]
+    cut_at = o.get("cut_at")
+    parent, size, label = [], [], []
+
+    def new_root(name):
+        parent.append(len(parent))
+        size.append(0)
+        label.append(name)
+        return len(parent) - 1
+
+    def find(x):
+        while parent[x] != x:
+            parent[x] = parent[parent[x]]
+            x = parent[x]
+        return x
+
+    def union(xs):
+        xs = sorted({find(x) for x in xs})
+        for x in xs[1:]:
+            parent[x] = xs[0]
+            size[xs[0]] += size[x]
+        return xs[0]
+
+    Q = [(e, new_root(e), -1, True) for e in q0]          # (name, root, log position when enqueued, external?)
+    sent = sorted(((x[2], x[1]) for x in o.get("side", []) if x[0] == "sent" and x[3] not in TERMINAL), key=lambda p: p[0])
+    si = 0
+    cur = [new_root("<start()>" if o["call"][0] == "start" else f"<{o['call'][0]}()>")]
+    raised, recv_raised = {}, {}
+    for k, r in enumerate(T):
+        while si < len(sent) and sent[si][0] <= k:
+            Q.append((sent[si][1], new_root(sent[si][1]), sent[si][0], True))
+            si += 1
+        if r.startswith("#recv:"):
+            e = r[6:]
+            if e in ext:
+                idx = [i for i, x in enumerate(Q) if x[0] == e and x[3]][:1]
+            else:
+                last_cut = (1 << 60) if cut_at is None else max([p for p in cut_at if p <= k] or [-1])
+                idx = []
+                for i, x in enumerate(Q):
+                    if x[3]:
+                        continue
+                    sure = x[2] >= last_cut        # enqueued since the last cut: still queued, nothing behind it was received
+                    if x[0] == e:
+                        idx.append(i)
+                    if sure:
+                        break
+                recv_raised[e] = recv_raised.get(e, 0) + 1
+            if not idx:
+                return None
+            cur = sorted({find(Q[i][1]) for i in idx})
+            Q = [x for x in Q[:idx[0]] if x[3]] + Q[idx[0] + 1:]
+        elif r.startswith("rz:"):
+            name = r[3:].rsplit("@", 1)[0]
+            root = union(cur)
+            cur = [root]
+            size[root] += 1
+            raised[name] = raised.get(name, 0) + 1
+            Q.append((name, root, k, False))
+    classes = {}
+    for x in range(len(parent)):
+        classes.setdefault(find(x), []).append(label[x])
+    trees = [["+".join(v), size[k]] for k, v in sorted(classes.items()) if not (v[0].startswith("<") and size[k] == 0)]
+    lost = {n: c - recv_raised.get(n, 0) for n, c in sorted(raised.items()) if c > recv_raised.get(n, 0)}
+    return {"trees": trees, "largest": max([t[1] for t in trees] or [0]), "raised": sum(raised.values()), "lost": lost}
+
+
 def c04_monitor(case, obs, flavor):
     """every accepted external event received exactly once, in (per-sender) order; raised events received in
-    raise order, after the macrostep that raised them; no record of another event inside a macrostep"""
+    raise order, after the macrostep that raised them; no record of another event inside a macrostep; a bound cut
+    discards raised events only if the causal tree of ONE external event outgrew `maxIterations`
+    (`short-chains-cut-by-burst`)"""
     out = []
+    marked = _c04_all_self_sends_marked(case["machine"])
     ext = set()
     for c in case["calls"]:
         if c[0] == "send":
@@ -1087,6 +1291,7 @@ def c04_monitor(case, obs, flavor):
                     open_at = None
         else:
             pending = pending + accepted
+        q0 = list(pending)      # the external events queued when this call's processing starts (causal-tree rule)
         # ---- scan the records of this call
         seg_ev = None
         skipped = []
@@ -1144,7 +1349,38 @@ def c04_monitor(case, obs, flavor):
                     bad("raised-event-lost", i, f"raised and never received: {raised_pending[:6]}")
             elif o["S"] in TERMINAL:
                 pending = []
+        # ---- the bound may cut a CHAIN, not a busy period: a cut that discards raised events is legitimate only if the
+        #      causal tree of one single external event outgrew maxIterations (a burst of independent short chains never is)
+        if (cut and marked and o["S"] == "running" and (flavor == "sync" or o.get("L")) and o.get("Q", 0) == 0
+                and not o["E"] and not o.get("X") and (i == 0 or not obs[i - 1].get("Q", 0))):
+            ct = c04_causal_trees(o, q0, limit, ext)
+            if ct is not None and ct["lost"] and ct["largest"] <= limit:
+                bad("short-chains-cut-by-burst", i,
+                    f"a bound cut was logged ({o['cuts']}) and raised events were never received: {ct['lost']} "
+                    f"({sum(ct['lost'].values())} of {ct['raised']} raised), although no external event's causal tree exceeds "
+                    f"maxIterations={limit}: tree sizes (raised events per external event, in queue order) "
+                    f"{[f'{a}:{b}' for a, b in ct['trees']][:24]}, largest {ct['largest']}; the interpreter is running and idle",
+                    trees=ct["trees"][:64], largest=ct["largest"], lost=ct["lost"], raised=ct["raised"], limit=limit, cut=cut)
     return out
+
+
+def _count_raising_bursts(c, obs, stats):
+    """coverage of the causal-tree rule: calls with more than maxIterations events queued of which more than
+    maxIterations raised something, and calls in which a cut was logged while every tree was within the bound"""
+    n = c["machine"].get("maxIterations", 1000)
+    for o in obs:
+        if o["call"][0] not in ("send_events", "produce"):
+            continue
+        segs, cur = [], None
+        for r in o["T"]:
+            if r.startswith("#recv:"):
+                cur = [r[6:], 0]
+                segs.append(cur)
+            elif r.startswith("rz:") and cur is not None:
+                cur[1] += 1
+        if sum(1 for e, k in segs if k and not e.startswith("r")) > n:
+            stats["bursts_with_more_than_bound_raising_events"] = stats.get("bursts_with_more_than_bound_raising_events", 0) + 1
+    return stats.get("bursts_with_more_than_bound_raising_events", 0)
 
 
 def c04_ordering(tier, seed):
@@ -1154,6 +1390,7 @@ def c04_ordering(tier, seed):
     stats = {"bursts_below_bound": 0, "bursts_at_bound": 0, "bursts_above_bound": 0, "raised_events_received": 0, "producer_sends": 0}
     for flavor in ("sync", "async"):
         cases = [gen_c04_case(seed, flavor, i) for i in range(600 * scale)]
+        cases += [c for c in c04_burst_cases(flavor) if not any(x[0] == "produce" for x in c["calls"])]
         ir = run_many(f"c04-{flavor}", cases)
         mr = run_life_model(cases, flavor)
         for c, (st, obs), (mst, mobs) in zip(cases, ir, mr):
@@ -1173,6 +1410,7 @@ def c04_ordering(tier, seed):
                     k = "bursts_below_bound" if len(call[1]) < n else ("bursts_at_bound" if len(call[1]) == n else "bursts_above_bound")
                     stats[k] += 1
             stats["raised_events_received"] += sum(1 for o in obs for r in o["T"] if r.startswith("#recv:r"))
+            _count_raising_bursts(c, obs, stats)
             pr = c04_monitor(c, obs, flavor)
             for p in pr[:2]:
                 fails.append(dict(p, flavor=flavor, case=c))
@@ -1182,6 +1420,7 @@ def c04_ordering(tier, seed):
                     samples.append({"case": c, "flavor": flavor})
     # producer tasks sending while a slow action of the run loop awaits (async engine, monitor only)
     pcases = [gen_c04_case(seed, "async", i, produce=True) for i in range(400 * scale)]
+    pcases += [c for c in c04_burst_cases("async") if any(x[0] == "produce" for x in c["calls"])]
     pr_ = run_many("c04-async", pcases, timeout=10)
     for c, (st, obs) in zip(pcases, pr_):
         evals += 1
@@ -1204,9 +1443,63 @@ def c04_ordering(tier, seed):
         if not pr:
             nontrivial += 1
     known, fails = split_known("C04", fails)
+    stats["bursts_of_short_chains_cut"] = sum(1 for p in known + fails if p.get("kind") == "short-chains-cut-by-burst")
     return {"evaluations": evals, "nontrivial": nontrivial, "ties": ties, "fails": fails, "known": known, "samples": samples, "exhaustive": False,
             "stats": stats,
             "what": f"[{json.dumps(stats)}; {len(known)} monitor failures explained by open findings] send_events bursts of sizes around maxIterations (below/at/above) and single sends on generated machines whose raise actions "
                     "raise distinguishable events, both engines, every observation diffed against the Lean model; async additionally 2-3 producer "
                     "tasks awaiting it.send() while sleeping coroutine actions of the run loop are in flight; monitor on #recv records: accepted "
-                    "external events received exactly once in (per-sender) order, raised events in raise order, no foreign record inside a macrostep"}
+                    "external events received exactly once in (per-sender) order, raised events in raise order, no foreign record inside a macrostep; causal trees (rz: markers + FIFO): a logged bound cut may discard "
+                    "raised events only if ONE external event's tree of raised events outgrew maxIterations (directed bursts of 1-3-event chains "
+                    "below/at/above the bound, mixed, with a legitimate fan-out, from producer tasks)"}
+
+
+# ===================================================================================================
+# C13, last sentence, per CAUSAL chain: "chains shorter than the bound run to their natural end"
+# ===================================================================================================
+def c13_bursts_of_short_chains(tier, seed):
+    """The streams of C13 send one event at a time and let it drain: a chain there is the whole busy period. Here many
+    chains share one busy period: `send_events` bursts (and async producer tasks) of events that each start a short
+    chain - the directed family `c04_burst_cases` plus generated C04 cases - under the causal-tree rule of
+    `c04_monitor` alone (`short-chains-cut-by-burst`: a logged cut that discards raised events although no external
+    event's tree of raised events exceeds maxIterations); a hang is a failure; model vs code on every non-producer case."""
+    scale = 4 if tier == "thorough" else 1
+    ties, fails, samples = [], [], []
+    evals = nontrivial = 0
+    stats = {"calls_with_a_cut": 0, "cuts_with_every_tree_within_bound": 0}
+    for flavor in ("sync", "async"):
+        cases = c04_burst_cases(flavor) + [gen_c04_case(seed, flavor, 5000 + i) for i in range(150 * scale)]
+        if flavor == "async":
+            cases += [gen_c04_case(seed, "async", 5000 + i, produce=True) for i in range(60 * scale)]
+        ir = run_many(f"c04-{flavor}", cases, timeout=10)
+        plain = [c for c in cases if not any(x[0] == "produce" for x in c["calls"])]
+        mres = dict(zip((c["id"] for c in plain), run_life_model(plain, flavor)))
+        for c, (st, obs) in zip(cases, ir):
+            evals += 1
+            if st != "ok":
+                fails.append({"kind": "hang" if st == "hang" else "raw-exception", "flavor": flavor, "case": c, "detail": str(obs)[:200]})
+                continue
+            if c["id"] in mres:
+                mst, mobs = mres[c["id"]]
+                if mst != "ok":
+                    ties.append({"flavor": flavor, "case": c, "detail": f"model rejects the machine: {mobs}"})
+                    continue
+                d = diff_life(obs, mobs, flavor, c)
+                if d is not None:
+                    ties.append({"flavor": flavor, "case": c, "diff": d})
+            pr = [p for p in c04_monitor(c, obs, flavor) if p["kind"] == "short-chains-cut-by-burst"]
+            for p in pr[:2]:
+                fails.append(dict(p, flavor=flavor, case=c))
+            ncut = sum(1 for o in obs if o["cuts"])
+            stats["calls_with_a_cut"] += ncut
+            stats["cuts_with_every_tree_within_bound"] += len(pr)
+            if ncut or _count_raising_bursts(c, obs, {}) or any(len(o["call"]) > 1 and isinstance(o["call"][1], list) and len(o["call"][1]) > 1 for o in obs):
+                nontrivial += 1
+                if not pr and len(samples) < 2 and len(json.dumps(c)) < 2500:
+                    samples.append({"case": c, "flavor": flavor})
+    return {"evaluations": evals, "nontrivial": nontrivial, "ties": ties, "fails": fails, "samples": samples, "exhaustive": False, "stats": stats,
+            "what": f"[{json.dumps(stats)}] many chains in ONE busy period: directed send_events bursts of N events each starting a chain of 1-3 raised "
+                    "events (N below/at/above maxIterations in 1..6, two chain kinds mixed, one event fanning out or looping beyond the bound, async "
+                    "producer tasks against a sleeping action) and generated C04 cases, both engines; monitor = causal trees from #recv segments, "
+                    "rz: markers and FIFO order: a logged cut may discard raised events only if ONE external event's tree outgrew maxIterations; "
+                    "non-producer cases diffed against the Lean lifecycle model"}
